@@ -53,7 +53,7 @@ def main():
         open(tmp, "w").write(text)
         t0 = time.time()
         meta = tempfile.mkdtemp(prefix="tlcmut")
-        p = subprocess.run(["timeout", "900", "tlc", "-workers", "8", "-metadir", meta, "-cleanup", "-noGenerateSpecTE", "-config", tmp, spec], cwd=SPECS, stdout=subprocess.PIPE, stderr=subprocess.STDOUT, text=True)
+        p = subprocess.run(["timeout", "2400", "tlc", "-workers", "14", "-metadir", meta, "-cleanup", "-noGenerateSpecTE", "-config", tmp, spec], cwd=SPECS, stdout=subprocess.PIPE, stderr=subprocess.STDOUT, text=True)
         subprocess.run(["rm", "-rf", meta])
         m = re.search(r"Error: (?:Invariant|Action property) (\w+) is violated", p.stdout) or re.search(r"Error: Temporal property (\w+) was violated", p.stdout)
         if not m and re.search(r"Error: Action property line \d+.* of module (\w+) is violated", p.stdout):
